@@ -294,7 +294,7 @@ pub fn decimal(number_value: &Value, scale_value: &Value) -> Value {
     if let Value::Number(scale) = scale_value {
       let scale = &scale.trunc();
       if (-6111..6176).contains(scale) {
-        Value::Number((*number).round(scale))
+        crate::builders::finite_number_or_null((*number).round(scale), "decimal")
       } else {
         value_null!("[core::decimal] scale is out of range: {}", scale)
       }
@@ -361,7 +361,7 @@ pub fn even(number_value: &Value) -> Value {
 /// Returns the Euler’s number e raised to the power of **value** given as a parameter.
 pub fn exp(value: &Value) -> Value {
   if let Value::Number(num) = value {
-    return Value::Number(num.exp());
+    return crate::builders::finite_number_or_null(num.exp(), "exp");
   }
   value_null!("exp")
 }
@@ -693,7 +693,7 @@ pub fn modulo(dividend_value: &Value, divisor_value: &Value) -> Value {
       if divisor.abs() == FeelNumber::zero() {
         value_null!("[core::modulo] division by zero")
       } else {
-        Value::Number(dividend - divisor * (dividend / divisor).floor())
+        crate::builders::finite_number_or_null(dividend - divisor * (dividend / divisor).floor(), "modulo")
       }
     } else {
       invalid_argument_type!("modulo", "number", divisor_value.type_of())
